@@ -1772,3 +1772,4 @@ Example concurrent_adds_survive_example :
   /\ leaves_of (hp s)
      = [(["a"; "c"], 3); (["a"; "b"; "x"], 1); (["a"; "b"; "z"], 4); (["a"; "b"; "y"], 2)]%string%Z.
 Proof. vm_compute. repeat split. Qed.
+
